@@ -1000,7 +1000,7 @@ C17_PRELUDE = '''#![allow(dead_code, unused_imports, non_snake_case)]
 use derive_ex::{derive_ex, Ex};
 use ::core::cmp::Ordering;
 #[derive(Clone, Copy, Debug, PartialEq, PartialOrd)] pub struct N(pub f32);          // PartialEq only: not Eq
-#[derive(Clone, Copy, Debug, PartialEq, Eq, PartialOrd, Ord)] pub struct E8(pub u8);  // Eq
+#[derive(Clone, Copy, Debug, PartialEq, Eq, PartialOrd, Ord, Hash)] pub struct E8(pub u8);  // Eq
 pub fn ke<T>(_: &T) -> u8 { 0 }
 pub fn kn<T>(_: &T) -> f32 { 0.0 }
 pub fn be<T>(_: &T, _: &T) -> bool { true }
@@ -1013,14 +1013,16 @@ def gen_c17_case(seed, idx):
     is_enum = rng.random() < 0.4
     generic = rng.random() < 0.3
     nf = rng.choice([1, 1, 2, 3])
+    # Hash derived next to Eq (only with default / ignored comparators: a custom one would need its own hash counterpart)
+    with_hash = rng.random() < 0.3
     fields = []
     ok = True
     for i in range(nf):
         tyk = rng.choice(['E', 'N', 'N', 'T'] if generic else ['E', 'N', 'N'])
         ty = {'E': 'E8', 'N': 'N', 'T': 'T'}[tyk]
         # attribute choice on eq / ord
-        eqa = rng.choice(['', '', 'ignore', 'keyE', 'keyN', 'by'])
-        orda = rng.choice(['', '', '', 'ignore', 'keyE', 'keyN', 'by'])
+        eqa = rng.choice(['', '', 'ignore'] if with_hash else ['', '', 'ignore', 'keyE', 'keyN', 'by'])
+        orda = rng.choice(['', '', '', 'ignore'] if with_hash else ['', '', '', 'ignore', 'keyE', 'keyN', 'by'])
         attrs = []
         if eqa == 'ignore':
             attrs.append('#[eq(ignore)]')
@@ -1038,6 +1040,11 @@ def gen_c17_case(seed, idx):
             attrs.append('#[ord(key = kn(&$))]')
         elif orda == 'by':
             attrs.append('#[ord(by = bo)]')
+        if with_hash:
+            # `#[hash(ignore)]` concerns Hash alone: it must not exempt the field from the Eq requirement
+            # (N does not implement Hash: there the attribute is needed for the program to compile at all)
+            if eqa != 'ignore' and orda != 'ignore' and (tyk == 'N' or rng.random() < 0.4):
+                attrs.append('#[hash(ignore)]')
         rng.shuffle(attrs)
         # reference rule (C17): ignored or compared with `by` => exempt; else the `key` value (eq first, then ord), else the field
         if eqa == 'ignore' or orda == 'ignore':
@@ -1058,7 +1065,8 @@ def gen_c17_case(seed, idx):
         fields.append((' '.join(attrs) + (' ' if attrs else ''), ty))
     g = '<T>' if generic and any(t == 'T' for _, t in fields) else ''
     entry = rng.choice(['attr', 'derive'])
-    head = '#[derive_ex(Eq, PartialEq)]' if entry == 'attr' else '#[derive(Ex)] #[derive_ex(Eq, PartialEq)]'
+    tl = rng.choice(['Eq, PartialEq, Hash', 'Hash, Eq, PartialEq', 'PartialEq, Hash, Eq']) if with_hash else 'Eq, PartialEq'
+    head = f'#[derive_ex({tl})]' if entry == 'attr' else f'#[derive(Ex)] #[derive_ex({tl})]'
     named = rng.random() < 0.5
     if named:
         body = ' { ' + ', '.join(f'{a}f{i}: {t}' for i, (a, t) in enumerate(fields)) + ' }'
@@ -1068,7 +1076,7 @@ def gen_c17_case(seed, idx):
         item = f'{head} pub enum X{g} {{ A, B{body} }}'
     else:
         item = f'{head} pub struct X{g}{body}' + ('' if named else ';')
-    return dict(id=f'c17/{seed}/{idx}', src=C17_PRELUDE + item + '\n', item=item, traits=['Eq', 'PartialEq'],
+    return dict(id=f'c17/{seed}/{idx}', src=C17_PRELUDE + item + '\n', item=item, traits=tl.split(', '),
                 expect_ok=ok, desc=dict(shape=('enum' if is_enum else 'struct') + str(nf), generic=bool(g), expect='accept' if ok else 'refuse'))
 
 
